@@ -68,4 +68,9 @@ func init() {
 		Decides:    "in the hostile-reachable set: no unbounded stream-decoded count sizes an allocation (C17-a); fixed-width reads from caller-supplied byte slices are length-guarded (C17-b); constant indices into decoded collections are length-guarded (C17-c); results that can be nil together with an error are not dereferenced before the error test (C17-d).",
 		NotDecided: "implicit index panics with non-constant indices, loop termination, 'nothing from a rejected packfile is left referenced'.",
 	}
+	props["C05"] = &propSpec{
+		Rules:      []string{"C05-a"},
+		Decides:    "column-layout consistency of the merge result pipeline: rows and key positions that reach the result sorter are in the merged layout, never raw base-table rows or base key positions (C05-a).",
+		NotDecided: "the cell-wise resolution rules, conflict marking, commutativity, keyless tables and renamed columns (value-dependent).",
+	}
 }
